@@ -67,6 +67,8 @@ def wrap(tag, chunks):
 
 
 def encode(tag, val):
+    if val[0] == 'T':                       # element of an any-attribute item: encoded under the tag it carries
+        return encode(val[1], val[2])
     if val[0] == 'P':
         return enc_prim(tag, val[1], val[2])
     if val[0] == 'E':
@@ -75,6 +77,8 @@ def encode(tag, val):
 
 
 def depth(val):
+    if val[0] == 'T':
+        return depth(val[2])
     if val[0] != 'S':
         return 1
     return 1 + max([depth(x) for _, xs in val[2] for x in xs] or [0])
@@ -88,6 +92,8 @@ def describe(val, maxlen=300):
             return '%s:%s' % (v[1], r if len(r) < 40 else r[:37] + '...')
         if v[0] == 'E':
             return '%s:%d' % (v[1], v[2])
+        if v[0] == 'T':
+            return '<%06x>%s' % (v[1], go(v[2]))
         return '%s{%s}' % (v[1], ', '.join('%s=[%s]' % (it['field'], '; '.join(go(x) for x in xs)) for it, xs in v[2] if xs))
     s = go(val)
     return s if len(s) <= maxlen else s[:maxlen] + '...'
@@ -99,6 +105,7 @@ class Schema:
         self.doc = doc
         self.classes = {c['name']: c for c in doc['classes']}
         self.enums = doc['enums']
+        self.tables = {n: tb['rows'] for n, tb in (doc.get('tables') or {}).items()}
 
     def active(self, cname, v, side='wr'):
         return [it for it in self.classes[cname][side] if it['lo'] <= v < it['hi']]
@@ -173,13 +180,17 @@ class Gen:
         return self.rot('enum:' + name, pool)
 
     def value(self, kind, v, depth):
+        if kind[0] == 'tagged':
+            rows = [r for r in self.s.tables[kind[1]] if r[2] <= v < r[3]]
+            r = self.rot('tagged:%s:%d' % (kind[1], v), rows)
+            return ('T', r[0], self.value(tuple(r[1]), v, depth))
         if kind[0] == 'prim':
             return ('P', kind[1], self.prim(kind[1]))
         if kind[0] == 'enum':
             return ('E', kind[1], self.enum(kind[1]))
         return self.struct(kind[1], v, depth + 1)
 
-    def struct(self, cname, v, depth=0, counts=None):
+    def struct(self, cname, v, depth=0, counts=None, nonempty=False):
         """counts: per active item the number of occurrences (top level); None -> random presence.
         A dispatched item (`by`) takes its tag and kind from its table under the value of its key item; the key
         item's value is drawn from the table keys so that generated values stay inside the modelled domain."""
@@ -210,6 +221,8 @@ class Gen:
                 n = 1 if self.rng.random() < 0.6 else 0
             else:
                 n = self.rng.choice([0, 1, 1, 2, 3])
+            if nonempty and it['mult'] == 'Many' and n == 0:
+                n = 1
             if it.get('by') and it['by'].get('src') == 'next_type' and it['mult'] == 'Req':
                 n = 1
             if i in key_for and n:
@@ -239,6 +252,11 @@ class Gen:
                 res = dict(it, tag=row[1], kind=list(row[2]))
                 res.pop('by')
                 fields.append((res, [self.value(tuple(row[2]), v, depth) for _ in range(n)]))
+                continue
+            if it.get('converted') and it['kind'][0] == 'struct':
+                # decoded into a plain Python list through a conversion that does not distinguish "empty structure" from
+                # "absent": only non-empty structures are in the image of the encoder
+                fields.append((it, [self.struct(it['kind'][1], v, depth + 1, None, nonempty=True) for _ in range(n)]))
                 continue
             fields.append((it, [self.value(tuple(it['kind']), v, depth) for _ in range(n)]))
         # a counted item: the Integer item of the header structure that holds the count says how many there are
